@@ -222,9 +222,12 @@ def check_bank(seq):
                     'detail': '%s: expected %r, got %r for treebank %s'
                               % (where, e, g, [model.mt_str(m.root) for m in mts]),
                     'what': where + ' report disagrees with the treebank'})
-    path = os.path.join(scratch(), 'bank.export')
+    srcfmt = ['export', 'tigerxml', 'discobrackets'][sum(seq) % 3]
+    path = os.path.join(scratch(), 'bank.' + srcfmt)
     with open(path, 'w', encoding='utf-8') as f:
-        f.write(codecs.encode_export(mts))
+        f.write({'export': codecs.encode_export, 'tigerxml': codecs.encode_tigerxml,
+                 'discobrackets': codecs.encode_discobrackets}[srcfmt](mts))
+    fmtargs = ['--src-format', srcfmt]
     try:
         # API
         task = treeanalysis.GapDegree()
@@ -235,7 +238,7 @@ def check_bank(seq):
         if task.gaps_per_node != exp['per_node']:
             bad('GapDegree.gaps_per_node', exp['per_node'], task.gaps_per_node)
         # CLI
-        st, so, se, exc = cli.run(['treeanalysis', path, 'GapDegree'])
+        st, so, se, exc = cli.run(['treeanalysis', path, 'GapDegree'] + fmtargs)
         rep = parse_gap_report(so)
         if st != 0 or rep is None:
             bad('cli GapDegree status/report', 0, (st, cli.describe(exc), so[-200:]))
@@ -245,11 +248,11 @@ def check_bank(seq):
                 bad('cli GapDegree', want, rep)
             if sum(rep['per_tree'].values()) != rep['trees'] or sum(rep['per_node'].values()) != rep['nodes']:
                 bad('cli GapDegree sums', (rep['trees'], rep['nodes']), rep)
-        st, so, se, exc = cli.run(['treeanalysis', path, 'SentenceCount'])
+        st, so, se, exc = cli.run(['treeanalysis', path, 'SentenceCount'] + fmtargs)
         m = re.search(r'^(\d+) sentences$', so, re.M)
         if st != 0 or not m or int(m.group(1)) != len(mts):
             bad('cli SentenceCount', len(mts), (st, cli.describe(exc), so[-100:]))
-        st, so, se, exc = cli.run(['treeanalysis', path, 'PosTags'])
+        st, so, se, exc = cli.run(['treeanalysis', path, 'PosTags'] + fmtargs)
         m = re.search(r'^(\d+) different tags$', so, re.M)
         if st != 0 or not m or int(m.group(1)) != exp['tags']:
             bad('cli PosTags', exp['tags'], (st, cli.describe(exc), so[-100:]))
